@@ -11,47 +11,36 @@ abbrev Dec18 := Int
 
 def maxDecBitLen : Nat := 315
 
-/-- `CalculateDuration(deposit, flowRate)` : `floor(deposit / flowRate)` through
-`Dec.QuoTruncateMut` and `TruncateInt64` (which panics outside int64; the Dec itself panics
-beyond 315 bits). -/
-def calcDuration (deposit : Int) (flowRate : Int) : M Int :=
-  if flowRate ≤ 0 then pure 0
+/-- `types.MaxDurationSeconds` = MaxInt64 / 10^9 : the longest duration expressible as a `time.Duration` -/
+def maxDurationSeconds : Int := 9223372036
+
+/-- `CalculateDuration(deposit, flowRate)` : `floor(deposit / flowRate)` in `sdk.Int`, saturating at
+MaxInt64 when the quotient does not fit an int64. -/
+def calcDuration (deposit : Int) (flowRate : Int) : Int :=
+  if flowRate ≤ 0 then 0
   else if deposit > 0 then
-    -- decDeposit = deposit·10^18 ; QuoTruncate by flowRate·10^18  ⇒  floor(deposit·10^18 / flowRate) (scaled)
-    let q : Int := (deposit * (pow18 : Int)) / flowRate
-    if bitLen q.natAbs > maxDecBitLen then throw (.panic "Int overflow")
-    else
-      let secs : Int := q / (pow18 : Int)
-      if inI64 secs then pure secs else throw (.panic "Int64() out of bound")
-  else pure 0
+    let q : Int := deposit / flowRate
+    if inI64 q then q else maxI64
+  else 0
 
 /-- `CalculateAmountToClaim(now, zero, last, deposit, rate)` → (amountToClaim, remaining) -/
 def calcAmountToClaim (now zero last : Int) (deposit : Int) (rate : Int) : Int × Int :=
   if now ≥ zero then (deposit, 0)
   else
     let timeSinceLast := satDur (now - last)
-    let secondsSinceLast := durSeconds timeSinceLast
-    let numCoins := wrapI64 (secondsSinceLast * rate)
-    let amountToClaim : Int := (u64OfI64 numCoins : Int)
+    let secondsSinceLast := max (durSeconds timeSinceLast) 0
+    let amountToClaim : Int := secondsSinceLast * rate
     if deposit > amountToClaim then (amountToClaim, deposit - amountToClaim)
     else (deposit, 0)
 
-/-- `CalculateValidatorFee(valFee, amountToClaim)` → (finalClaim, valFeeCoin) -/
+/-- `CalculateValidatorFee(valFee, amountToClaim)` → (finalClaim, valFeeCoin) : `floor(amount·fee)` -/
 def calcValidatorFee (valFee : Dec18) (amount : Int) : M (Int × Int) :=
   if valFee > 0 then
-    -- NewDecCoinFromCoin validates the coin (negative ⇒ panic); amount is non-negative here
-    if amount < 0 then throw (.panic "negative coin amount")
-    else
-      let prod : Int := amount * valFee                 -- Dec.Mul: (a·10^18 · f) / 10^18, exact
-      if bitLen prod.natAbs > maxDecBitLen then throw (.panic "Int overflow")
-      else
-        let feeAmt : Int := prod / (pow18 : Int)
-        if !inI64 feeAmt then throw (.panic "Int64() out of bound")
-        else
-          let feeU : Int := (u64OfI64 feeAmt : Int)
-          -- finalClaimCoin = amountToClaim.Sub(valFeeCoin) panics when negative
-          if amount - feeU < 0 then throw (.panic "negative coin amount")
-          else pure (amount - feeU, feeU)
+    let feeAmt : Int := Int.tdiv (amount * valFee) (pow18 : Int)
+    -- sdk.NewCoin / Coin.Sub panic on negative amounts
+    if feeAmt < 0 then throw (.panic "negative coin amount")
+    else if amount - feeAmt < 0 then throw (.panic "negative coin amount")
+    else pure (amount - feeAmt, feeAmt)
   else pure (amount, 0)
 
 structure Stream where
@@ -117,7 +106,7 @@ def addDeposit (x : SB) (now : Int) (blocked : Addr → Bool) (r s : Addr) (deno
   | none => throw eStrNotExist
   | some st =>
     if denom ≠ st.denom then throw eStrInvalidData
-    let durationExtension ← calcDuration amt st.rate
+    let durationExtension := calcDuration amt st.rate
     let mut x := x
     let mut st := st
     let mut zt : Int := 0
@@ -126,10 +115,12 @@ def addDeposit (x : SB) (now : Int) (blocked : Addr → Bool) (r s : Addr) (deno
         let (x', _) ← claimFromStream x now blocked r s
         x := x'
         st := (AL.find? x.str.streams (r, s)).getD st
+      st := { st with last := now }
       zt := addSeconds now durationExtension
     else
       zt := addSeconds st.zero durationExtension
     let bank ← x.bank.sendCoins nowSec s Mstr (Coins.ofCoin { denom := denom, amt := amt })
+    if durationExtension > maxDurationSeconds then throw eStrInvalidData
     let st' := { st with deposit := st.deposit + amt, zero := zt }
     pure { str := { x.str with streams := AL.insert x.str.streams (r, s) st' }, bank := bank }
 
@@ -145,7 +136,8 @@ def setNewFlowRate (x : SB) (now : Int) (blocked : Addr → Bool) (r s : Addr) (
       let (x', _) ← claimFromStream x now blocked r s
       x := x'
       st := (AL.find? x.str.streams (r, s)).getD st
-      let duration ← calcDuration st.deposit newRate
+      let duration := calcDuration st.deposit newRate
+      if duration > maxDurationSeconds then throw eStrInvalidData
       zt := addSeconds now duration
     let st' := { st with rate := newRate, zero := zt }
     pure { x with str := { x.str with streams := AL.insert x.str.streams (r, s) st' } }
@@ -180,8 +172,7 @@ def vbCreateStream (rT sT : AddrTok) (denom : String) (amt rate : Int) : M Unit 
   if rate < 1 then throw eStrInvalidData
   if sT = rT then throw eStrInvalidData
   let _ := denom
-  let d ← calcDuration amt rate
-  if d < 60 then throw eStrInvalidData
+  if calcDuration amt rate < 60 then throw eStrInvalidData
 
 /-- message server `CreateStream` -/
 def createStream (x : SB) (now : Int) (blocked : Addr → Bool) (rT sT : AddrTok) (denom : String) (amt rate : Int) : M SB := do
@@ -192,8 +183,7 @@ def createStream (x : SB) (now : Int) (blocked : Addr → Bool) (rT sT : AddrTok
   if AL.contains x.str.streams (r, s) then throw eStrExists
   if coinNotPositive amt then throw eStrInvalidData
   if rate ≤ 0 then throw eStrInvalidData
-  let d ← calcDuration amt rate
-  if d < 60 then throw eStrInvalidData
+  if calcDuration amt rate < 60 then throw eStrInvalidData
   -- CreateNewStream
   let st : Stream := { denom := denom, deposit := 0, rate := rate, last := now, zero := 0, cancellable := true }
   let x1 : SB := { x with str := { x.str with streams := AL.insert x.str.streams (r, s) st } }
